@@ -10,7 +10,7 @@ use crate::internal::streamname::{
 };
 use crate::internal::stringpool::{StringPool, StringPoolBuilder};
 use crate::internal::summary::SummaryInfo;
-use crate::internal::table::{Rows, Table};
+use crate::internal::table::{Rows, Table, MAX_NUM_TABLE_ROWS};
 use crate::internal::value::{Value, ValueRef};
 use cfb;
 use std::borrow::Borrow;
@@ -793,6 +793,24 @@ impl<F: Read + Write + Seek> Package<F> {
                     "Table {:?} already has entries for a table named {:?}",
                     catalog_name,
                     table_name
+                );
+            }
+            // And make sure that the catalog table has room for the new rows.
+            let num_new_rows = if catalog_name == TABLES_TABLE_NAME {
+                tables_rows.len()
+            } else {
+                columns.len()
+            };
+            let num_rows =
+                self.select_rows(Select::table(catalog_name))?.len();
+            if num_rows + num_new_rows > MAX_NUM_TABLE_ROWS {
+                invalid_input!(
+                    "Cannot create table {:?}; table {:?} already has {} rows \
+                     (a table can have at most {} rows)",
+                    table_name,
+                    catalog_name,
+                    num_rows,
+                    MAX_NUM_TABLE_ROWS
                 );
             }
         }
